@@ -2,7 +2,9 @@
 Correspondence: Model/Metrics.v at Qops vs tensorly/metrics/{factors,similarity,regression,leverage_scores}.py and
 cp_tensor.cp_permute_factors.  Oracle answers (column norms, the assignment returned through the implementation, the thin
 SVD) travel as data and their contracts are re-checked in Coq (norm^2 = sum of squares; the returned matching against the
-brute force over all r! matchings, by value; U^T U = I, U S V^T = M).
+brute force over all r! matchings, by value, and -- at ranks up to 10 (thorough 14) -- against a dual certificate whose
+soundness is a theorem (C20_dual_certificate_optimal); U^T U = I, U S V^T = M).  The sqrt-based regression metrics are
+executed in the model with a 2^-100 square root (Corr.C20.qsqrt).
 Predicates (independent NumPy / Fraction transcriptions of the theorem statements) run on the implementation's outputs."""
 import itertools, math, random
 from fractions import Fraction
@@ -121,6 +123,50 @@ def ref_congruence_matrix(As, Bs, absv):
     return c
 
 
+def hungarian_min(cost):
+    """O(n^3) Hungarian algorithm (shortest augmenting paths with potentials), minimisation.  -> (u, v, row_to_col) with
+    u[i] + v[j] <= cost[i][j] for all i, j and equality on the returned matching.  Independent of scipy: used (a) as the
+    optimum in the Python predicate at ranks where r! is out of reach and (b) as the source of the column potentials of the
+    dual certificate that Coq checks (the potentials are UNTRUSTED data: Coq recomputes the row potentials and the gap)."""
+    n = len(cost); INF = float("inf")
+    u = [0.0] * (n + 1); v = [0.0] * (n + 1); p = [0] * (n + 1); way = [0] * (n + 1)
+    for i in range(1, n + 1):
+        p[0] = i; j0 = 0
+        minv = [INF] * (n + 1); used = [False] * (n + 1)
+        while True:
+            used[j0] = True; i0 = p[j0]; delta = INF; j1 = 0
+            for j in range(1, n + 1):
+                if not used[j]:
+                    cur = cost[i0 - 1][j - 1] - u[i0] - v[j]
+                    if cur < minv[j]:
+                        minv[j] = cur; way[j] = j0
+                    if minv[j] < delta:
+                        delta = minv[j]; j1 = j
+            for j in range(n + 1):
+                if used[j]:
+                    u[p[j]] += delta; v[j] -= delta
+                else:
+                    minv[j] -= delta
+            j0 = j1
+            if p[j0] == 0:
+                break
+        while True:
+            j1 = way[j0]; p[j0] = p[j1]; j0 = j1
+            if j0 == 0:
+                break
+    row_to_col = [0] * n
+    for j in range(1, n + 1):
+        row_to_col[p[j] - 1] = j - 1
+    return u[1:], v[1:], row_to_col
+
+
+def max_matching_potentials(cm):
+    """column potentials vs of the MAXIMISATION problem on cm (C_ij <= u_i + vs_j) and the optimal mean"""
+    r = cm.shape[0]
+    u, v, m = hungarian_min([[-float(cm[i, j]) for j in range(r)] for i in range(r)])
+    return [-x for x in v], float(np.mean([cm[i, m[i]] for i in range(r)]))
+
+
 def call_congruence(call):
     from tensorly.metrics.factors import congruence_coefficient
     import tensorly as tl
@@ -170,6 +216,10 @@ def pred_congruence(call, out):
         unique = r == 1 or scores[-2] < best - 1e-6      # the optimal matching is unique (no ties / near-ties)
         if val < best - 1e-9:
             fails.append(("C20_congruence_is_max", f"value {val!r} below the optimum {best!r} over all {math.factorial(r)} matchings"))
+    else:
+        _, best = max_matching_potentials(cm)
+        if val < best - 1e-9:
+            fails.append(("C20_congruence_is_max", f"value {val!r} below the optimum {best!r} (Hungarian algorithm, rank {r})"))
     if call.get("sigma") is not None:
         sigma = call["sigma"]
         rec = [sigma.index(i) for i in range(r)]          # the recovering permutation: B[:, rec[i]] is a multiple of A[:, i]
@@ -194,6 +244,53 @@ def emit_congruence(cid, call, out):
     else:
         impl = "Err"
     return (f"({cid}%nat, KCong {C.boolc(absv_of(call))} {mats_lit(As)} {mats_lit(Bs)} {qlists_lit(nas)} {qlists_lit(nbs)} {impl})")
+
+
+def emit_congruence_dual(cid, call, out):
+    st, v = out
+    As, Bs = call["As"], call["Bs"]
+    nas = [col_norms(a) for a in As]; nbs = [col_norms(b) for b in Bs]
+    r = As[0].shape[1]
+    vs = max_matching_potentials(ref_congruence_matrix(As, Bs, absv_of(call)))[0]
+    if st == "ok":
+        impl = f"(Ok ({C.q(float(v[0]))}, {C.nat_list([int(x) for x in v[1]])}))"
+    else:
+        impl = "Err"
+    return (f"({cid}%nat, KCongDual {C.boolc(absv_of(call))} {mats_lit(As)} {mats_lit(Bs)} {qlists_lit(nas)} {qlists_lit(nbs)} "
+            f"{C.q_list([float(x) for x in vs])} {C.boolc(r <= 5)} {impl})")
+
+
+def gen_congruence_dual(tier, rng):
+    """optimality decided by the dual certificate (checked in Coq), at ranks beyond the r! brute force too; at rank <= 5 the
+    brute force runs as well (the two deciders must agree)"""
+    calls = []
+    ranks = [2, 3, 5, 6, 7, 8, 9, 10] if tier == "quick" else [2, 3, 4, 5, 6, 7, 8, 9, 10, 11, 12, 14]
+    reps = 1 if tier == "quick" else 3
+    for r in ranks:
+        for kind in ("random", "equivalent", "ties", "perturbed"):
+            for _ in range(reps):
+                nm = rng.choice([1, 2, 3]); hs = [rng.randint(2, 5) for _ in range(nm)]
+                absv = rng.choice([True, False, None]) if kind in ("random", "ties") else True
+                A = factor_set(rng, r, hs, generic=(kind != "ties"), intnorm=True)
+                sigma = list(range(r)); rng.shuffle(sigma)
+                call = dict(As=A, absv=absv, stream="certified-" + kind, single=(nm == 1 and rng.random() < 0.5))
+                if kind == "random":
+                    call["Bs"] = factor_set(rng, r, hs, intnorm=True)
+                elif kind == "equivalent":
+                    call["Bs"] = equivalent_copy(A, sigma, scalings(rng, r, nm, "signed")); call["sigma"] = sigma; call["generic"] = True
+                elif kind == "ties":
+                    j, k2 = rng.sample(range(r), 2)
+                    for f in A:
+                        f[:, j] = f[:, k2]
+                    call["Bs"] = equivalent_copy(A, sigma, scalings(rng, r, nm, "signed" if absv_of(call) else "pos"))
+                else:
+                    B = equivalent_copy(A, sigma, scalings(rng, r, nm, "signed"))
+                    B = [b + np.array([[rng.randint(-2, 2) / 16 for _ in range(r)] for _ in range(b.shape[0])]) for b in B]
+                    if not all(np.all(np.abs(b).sum(axis=0) > 0) for b in B):
+                        continue
+                    call["Bs"] = B
+                calls.append(call)
+    return calls
 
 
 def gen_congruence(tier, rng):
@@ -427,6 +524,14 @@ def ref_corridx(call, raw=False):
     return {"max_score": max(s), "min_score": min(s), "avg_score": sum(s) / len(s)}[call["method"]]
 
 
+def threshold_ambiguous(call):
+    """a raw per-pair index within 1e-7 of a positive tol: the strict comparison is undecidable under rounding -- except on the
+    inputs constructed so that floating point is exact (exact_boundary)"""
+    if call.get("exact_boundary") is not None:
+        return False
+    return any(corr_tol(call) > 1e-8 and abs(x - corr_tol(call)) < 1e-7 for x in ref_corridx(call, raw=True))
+
+
 def pred_corridx(call, out):
     st, v = out
     if call.get("malformed"):
@@ -439,7 +544,10 @@ def pred_corridx(call, out):
         fails.append(("C20_corrindex_range", f"correlation index {v!r} outside [0, 1]"))
     if call.get("equivalent") and not (abs(v) <= 1e-12):
         fails.append(("C20_corrindex_zero", f"equivalent factor sets ({call['equivalent']}) have correlation index {v!r} != 0"))
-    if any(corr_tol(call) > 1e-8 and abs(x - corr_tol(call)) < 1e-7 for x in ref_corridx(call, raw=True)):
+    if call.get("exact_boundary") is not None and abs(v - call["exact_boundary"]) > 1e-12:
+        fails.append(("C20_corrindex_def", f"raw index exactly {call['exact_boundary']} = tol: `score < tol` is false, the result must be "
+                                           f"{call['exact_boundary']}, got {v!r}"))
+    if threshold_ambiguous(call):
         return fails      # threshold decision ambiguous under rounding
     ref = ref_corridx(call)
     if abs(ref - v) > 1e-9:
@@ -486,6 +594,29 @@ def gen_corridx(tier, rng):
                 B = [b + np.array([[rng.randint(-2, 2) / 16 for _ in range(r)] for _ in range(b.shape[0])]) for b in B]
                 if all(np.all(np.abs(b).sum(axis=0) > 0) for b in B):
                     calls.append(dict(As=A, Bs=B, method=meth, tol=tolv, stream="perturbed"))
+    # (b) the threshold met EXACTLY (floating point is exact on these inputs, so the strict `score < tol` is decidable):
+    #     orthogonal supports -> every cosine is exactly 0, raw index exactly 1.0, tol = 1.0 -> the result is 1.0, not 0;
+    #     unit vectors scaled by powers of two, half of them shared -> raw index exactly 0.5, tol = 0.5 -> 0.5
+    for meth in METHODS:
+        for r in ([1, 2, 4] if tier == "quick" else [1, 2, 4, 1, 2, 4]):
+            nm = rng.choice([1, 2]); h = rng.randint(1, 2) + r
+            A, B = [], []
+            for _ in range(nm):
+                a = np.zeros((2 * h, r)); b = np.zeros((2 * h, r))
+                a[:h, :] = dyadic_matrix(rng, h, r); b[h:, :] = dyadic_matrix(rng, h, r)
+                A.append(a); B.append(b)
+            calls.append(dict(As=A, Bs=B, method=meth, tol=1.0, exact_boundary=1.0, stream="boundary"))
+        for _ in range(1 if tier == "quick" else 3):
+            nm = rng.choice([1, 2]); A, B = [], []
+            for _ in range(nm):
+                a = np.zeros((4, 2)); b = np.zeros((4, 2))
+                pw = lambda: rng.choice([0.25, 0.5, 1.0, 2.0, 4.0]) * rng.choice([1, -1])
+                a[0, 0] = pw(); a[1, 1] = pw(); b[0, 0] = pw(); b[2, 1] = pw()
+                if rng.random() < 0.5:
+                    a = a[:, ::-1].copy()
+                A.append(a); B.append(b)
+            if meth != "stacked" or nm == 1:
+                calls.append(dict(As=A, Bs=B, method=meth, tol=0.5, exact_boundary=0.5, stream="boundary"))
     for k in range(12 if tier == "quick" else 40):
         r = rng.randint(1, 3); hs = [rng.randint(1, 3) for _ in range(2)]
         A = factor_set(rng, r, hs); B = factor_set(rng, r, hs)
@@ -516,6 +647,8 @@ def call_leverage(call):
 
 def pred_leverage(call, out):
     st, v = out
+    if call.get("malformed"):
+        return [] if st == "reject" else [("C20_rejects_malformed", f"{call['malformed']}: no numerical rank, yet not rejected: {st} {str(v)[:80]}")]
     if st != "ok":
         return [("C20_leverage_defined", f"valid input raised: {v}")]
     v = np.asarray(v)
@@ -528,8 +661,11 @@ def pred_leverage(call, out):
         return fails + [("C20_leverage_simplex", f"shape {v.shape}")]
     if not finite(v) or np.min(v) < -1e-15:
         fails.append(("C20_leverage_simplex", f"negative / non-finite leverage score {np.min(v)!r}"))
-    if abs(float(np.sum(v)) - 1) > tolv:
+    # lower-precision input: the scores are renormalised in float64, so they sum to one to float64 accuracy
+    if abs(float(np.sum(v)) - 1) > (tolv if call["M"].dtype == np.float64 else 1e-12):
         fails.append(("C20_leverage_simplex", f"leverage scores sum to {float(np.sum(v))!r} != 1"))
+    if call.get("stream") == "near_cutoff":
+        return fails      # the rank decision sits at the eps scale: decided by the model on the recorded singular values
     k = np.linalg.matrix_rank(M)
     proj = M @ np.linalg.pinv(M)
     if k > 0 and np.max(np.abs(np.diag(proj) / k - v)) > (1e-8 if call["M"].dtype == np.float64 else 1e-4):
@@ -557,6 +693,25 @@ def gen_leverage(tier, rng):
             M[:, nc - 1] = 2 * M[:, 0]      # exactly rank deficient
         dt = np.float32 if k % 7 == 6 else np.float64
         calls.append(dict(M=M.astype(dt), stream="float32" if dt == np.float32 else ("deficient" if k % 5 == 4 and nc >= 2 else "random")))
+    # the zero matrix has no singular value above the cut-off: no numerical rank, the call must fail
+    for nr, nc in ([(1, 1), (3, 2)] if tier == "quick" else [(1, 1), (3, 2), (2, 4), (5, 5)]):
+        calls.append(dict(M=np.zeros((nr, nc)), malformed="zero matrix", stream="zero"))
+    # a second singular value BETWEEN min(shape) * eps * s_max and max(shape) * eps * s_max (tall or wide matrix): the numerical
+    # rank is 1 under the documented cut-off max(S) * max(shape) * eps
+    import tensorly as tl
+    want = 6 if tier == "quick" else 24
+    got = 0
+    for _ in range(400):
+        if got >= want:
+            break
+        n = rng.randint(4, 8); k2 = rng.randint(44, 52); c = rng.choice([1.0, 2.0, 0.5, 3.0])
+        M = np.full((n, 2), c); M[rng.randrange(n), 1] = c * (1 + 2.0 ** (-k2))
+        if rng.random() < 0.5:
+            M = M.T.copy()
+        S = np.asarray(tl.svd(tl.tensor(M.copy()), full_matrices=False)[1])
+        lo = S[0] * min(M.shape) * EPS64; hi = S[0] * max(M.shape) * EPS64
+        if 1.3 * lo < S[1] < hi / 1.3:
+            calls.append(dict(M=M, stream="near_cutoff")); got += 1
     return calls
 
 
@@ -885,13 +1040,13 @@ SRC_FORMS = {}      # function name -> ("ok", rform literal) | ("unsupported", r
 
 TIE_GOALS = {
     "MSE": "forall ax yt yp, rev ax [yt; yp] E = MSE Qops ax yt yp",
-    "RMSE": "forall ax yt yp, rev ax [yt; yp] E = MSE Qops ax yt yp",
+    "RMSE": "forall (sq : Q -> Q) ax yt yp, rev ax [yt; yp] E = MSE Qops ax yt yp /\\ RMSE Qops sq ax yt yp = tmap sq (rev ax [yt; yp] E)",
     "R2_score": "forall ax yt yp, rev ax [yt; yp] E = mk [] [R2_score Qops yt yp]",
     "covariance": "forall ax yt yp, rev ax [yt; yp] E = covariance Qops ax yt yp",
     "variance": "forall ax y, rev ax [y] E = variance Qops ax y",
-    "correlation": "forall ax yt yp, rev ax [yt; yp] N = fst (corr_parts Qops ax yt yp) /\\ rev ax [yt; yp] D = snd (corr_parts Qops ax yt yp)",
-    "reflective_correlation_coefficient": "forall ax yt yp, rev ax [yt; yp] N = fst (refl_parts Qops ax yt yp) /\\ rev ax [yt; yp] D = snd (refl_parts Qops ax yt yp)",
-    "standard_deviation": "forall ax y, rev ax [y] E = variance Qops ax y",
+    "correlation": "forall (sq : Q -> Q) ax yt yp, rev ax [yt; yp] N = fst (corr_parts Qops ax yt yp) /\\ rev ax [yt; yp] D = snd (corr_parts Qops ax yt yp) /\\ correlation Qops sq ax yt yp = tzip Qops (fdiv Qops) (rev ax [yt; yp] N) (tmap sq (rev ax [yt; yp] D))",
+    "reflective_correlation_coefficient": "forall (sq : Q -> Q) ax yt yp, rev ax [yt; yp] N = fst (refl_parts Qops ax yt yp) /\\ rev ax [yt; yp] D = snd (refl_parts Qops ax yt yp) /\\ reflective_correlation Qops sq ax yt yp = tzip Qops (fdiv Qops) (rev ax [yt; yp] N) (tmap sq (rev ax [yt; yp] D))",
+    "standard_deviation": "forall (sq : Q -> Q) ax y, rev ax [y] E = variance Qops ax y /\\ standard_deviation Qops sq ax y = tmap sq (rev ax [y] E)",
 }
 
 
@@ -920,7 +1075,7 @@ def prove_source_tie(forms):
         fn = os.path.join(d, f"Tie_{name}.v")
         with open(fn, "w") as f:
             f.write(HEADER.replace("Base.Tensor", "Base.Tensor Base.Ops") + "\n" + defs +
-                    f"Lemma tie : {TIE_GOALS[name]}.\nProof. intros. try split; reflexivity. Qed.\n")
+                    f"Lemma tie : {TIE_GOALS[name]}.\nProof. intros. repeat split; reflexivity. Qed.\n")
         procs.append((name, subprocess.Popen(["timeout", "300", "coqc", "-w", "none", "-R", os.path.join(C.COQ, "theories"), "TLV", fn],
                                              stdout=subprocess.PIPE, stderr=subprocess.PIPE, text=True, cwd=d)))
     for name, pr in procs:
@@ -933,6 +1088,7 @@ def prove_source_tie(forms):
 # ----------------------------------------------------------------------------- driver
 STREAMS = {
     "congruence_coefficient": ("tensorly.metrics.factors.congruence_coefficient", gen_congruence, call_congruence, pred_congruence, emit_congruence),
+    "congruence_certified": ("tensorly.metrics.factors.congruence_coefficient", gen_congruence_dual, call_congruence, pred_congruence, emit_congruence_dual),
     "cp_permute_factors": ("tensorly.cp_tensor.cp_permute_factors", gen_permute, call_permute, pred_permute, emit_permute),
     "correlation_index": ("tensorly.metrics.similarity.correlation_index", gen_corridx, call_corridx, pred_corridx, emit_corridx),
     "leverage_score_dist": ("tensorly.metrics.leverage_scores.leverage_score_dist", gen_leverage, call_leverage, pred_leverage, emit_leverage),
@@ -1022,8 +1178,13 @@ def run(chk):
     chk.cov["source_tie_regression"] = prove_source_tie(SRC_FORMS)
     lap("source_tie")
     todo = load_corpus()
+    only = [x for x in os.environ.get("VERIF_C20_ONLY", "").split(",") if x]      # development aid (mutation screening): a subset of streams
     for sname, (ep, gen, call_fn, pred, emit) in STREAMS.items():
-        todo += [(sname, c) for c in gen(tier, rng)]
+        cs_ = [(sname, c) for c in gen(tier, rng)]       # always generated: the random stream does not depend on the selection
+        if not only or sname in only:
+            todo += cs_
+    if only:
+        chk.cov["dev_only_streams"] = only
     for sname, call in todo:
         ep, gen, call_fn, pred, emit = STREAMS[sname]
         out = call_fn(call)
@@ -1042,7 +1203,7 @@ def run(chk):
             skipped += 1; chk.hist("skipped", "non-finite (constant slice)"); continue
         if sname == "correlation_index" and out[0] == "ok" and not call.get("malformed"):
             try:
-                if any(corr_tol(call) > 1e-8 and abs(x - corr_tol(call)) < 1e-7 for x in ref_corridx(call, raw=True)):
+                if threshold_ambiguous(call):
                     skipped += 1; chk.hist("skipped", "correlation index within 1e-7 of tol"); continue
             except Exception:
                 pass
@@ -1072,7 +1233,9 @@ def run(chk):
     chk.cov["rule"] = ("congruence_coefficient / cp_permute_factors / correlation_index on dyadic factor sets of rank 1-5 (thorough: 6), 1-3 modes, "
                        "heights 1-6: independent sets, EVERY column permutation of rank <= 4 (thorough <= 5) with sampled non-zero (signed) "
                        "scalings, tied, perturbed and malformed inputs, single matrices and lists, absolute_value on/off/default, all four "
-                       "correlation-index methods with default and custom tol; cp_permute_factors on single tensors and lists of two different "
+                       "correlation-index methods with default and custom tol; congruence_coefficient at ranks 2-10 (thorough 2-14) with the "
+                       "returned matching certified optimal by an LP-dual certificate evaluated in Coq (and by the brute force as well at rank <= 5); "
+                       "cp_permute_factors on single tensors and lists of two different "
                        "tensors; leverage scores of random and exactly rank-deficient matrices (float64 and float32); the eight regression "
                        "metrics over every axis (+None, +1 invalid) of a grid of shapes.  distinct key = (entry point, shapes, options, "
                        "stream, permutation); non-trivial = rank >= 2 resp. more than one entry")
@@ -1085,6 +1248,9 @@ def run(chk):
     chk.assumptions = ["exact-arithmetic semantics: floating-point rounding is outside the model (values through sqrt/division compared at 1e-9)",
                        "the r! brute force in Coq runs on the exact congruence matrix rounded down to multiples of 2^-80 (scores move by < 2^-80)",
                        "column norms, the assignment and the thin SVD are oracle answers whose contracts are re-checked in Coq on every case",
+                       "dual certificates: the column potentials come from a Hungarian algorithm in the harness (untrusted data); Coq recomputes the row "
+                       "potentials and the duality gap on the matrix rounded to 2^-80 and accepts gap <= 1e-9 * rank (theorem: value within 1e-9 of the optimum)",
+                       "sqrt in the executed model = floor(sqrt(x * 2^200)) / 2^100 (Z.sqrt); numpy's sqrt is compared with it at 1e-9",
                        "factor matrices have no exactly-zero column (the code rejects them) and at least one row and column"]
     chk.trusted += ["ast translator regression.py -> Corr.C20.rexp (its output is compared with the hand-written model by conversion and on samples)"]
     chk.trusted += ["oracles: numpy sqrt (column norms), scipy.optimize.linear_sum_assignment, numpy.linalg.svd -- answers checked per case "
